@@ -103,7 +103,7 @@ func cmdStruct(args []string) {
 	b := hx.NewBatch(*work)
 	b.WriteGoMod()
 	var src strings.Builder
-	src.WriteString("package p\n\nimport \"" + b.Mod + "/q\"\n\nvar _ q.TQ\n\nfunc Fn(x int) int { return x }\n\ntype DS struct {\n\tA int\n\tB int\n}\ntype DT struct {\n\tA int\n\tB int\n}\ntype FPS struct{ V int }\ntype UN struct{ X int }\ntype UNI struct {\n\tX     int\n\tExtra interface{}\n}\ntype USI struct{ N UNI }\ntype UTI struct{ N UNI }\ntype UTags map[string]int\ntype US struct {\n\tA  int\n\tN  UN\n\tP  *int\n\tL  []int\n\tM  map[string]int\n\tNM UTags\n}\ntype UT struct {\n\tA  int\n\tN  UN\n\tP  *int\n\tL  []int\n\tLS []string\n\tM  map[string]int\n\tNM UTags\n}\n\nfunc ToS(v []int) []string {\n\tif v == nil {\n\t\treturn []string{\"nil\"}\n\t}\n\treturn []string{\"7\"}\n}\n\ntype Money struct{ V int }\ntype Price struct{ V int }\ntype Cost struct{ V int }\ntype DS2 struct {\n\tA int\n\tM Money\n\tN Money\n}\ntype DT2 struct {\n\tA int\n\tM Price\n\tN Cost\n}\n\nfunc NewT2() *DT2 { return &DT2{A: 100} }\n\nfunc NewDL() []*struct{ A int } { return nil }\n\nfunc NewDM() map[string]int { return map[string]int{\"origin\": 1} }\n\ntype DR struct {\n\tV    int\n\tKids []DR\n}\ntype DRO struct {\n\tV    int\n\tKeep int\n\tKids []DRO\n}\n\nfunc NewDRO() *DRO { return &DRO{Keep: 100} }\n\ntype DV struct{ V int }\ntype DVO struct {\n\tV    int\n\tKeep int\n}\n\nfunc NewDVO() *DVO { return &DVO{Keep: 100} }\n")
+	src.WriteString("package p\n\nimport \"" + b.Mod + "/q\"\n\nvar _ q.TQ\n\nfunc Fn(x int) int { return x }\n\ntype DS struct {\n\tA int\n\tB int\n}\ntype DT struct {\n\tA int\n\tB int\n}\ntype FPS struct{ V int }\ntype UN struct{ X int }\ntype UNI struct {\n\tX     int\n\tExtra interface{}\n}\ntype USI struct{ N UNI }\ntype UTI struct{ N UNI }\ntype UTags map[string]int\ntype US struct {\n\tA  int\n\tN  UN\n\tP  *int\n\tL  []int\n\tM  map[string]int\n\tNM UTags\n}\ntype UT struct {\n\tA  int\n\tN  UN\n\tP  *int\n\tL  []int\n\tLS []string\n\tM  map[string]int\n\tNM UTags\n}\n\nfunc ToS(v []int) []string {\n\tif v == nil {\n\t\treturn []string{\"nil\"}\n\t}\n\treturn []string{\"7\"}\n}\n\ntype Money struct{ V int }\ntype Price struct{ V int }\ntype Cost struct{ V int }\ntype DS2 struct {\n\tA int\n\tM Money\n\tN Money\n}\ntype DT2 struct {\n\tA int\n\tM Price\n\tN Cost\n}\n\nfunc NewT2() *DT2 { return &DT2{A: 100} }\n\nfunc NewDL() []*struct{ A int } { return nil }\n\ntype UWS struct{ V string }\ntype UWT struct{ V int }\n\nfunc AtoiU(s string) (int, error) { return 0, errBoom{} }\n\ntype errBoom struct{}\n\nfunc (errBoom) Error() string { return \"boom\" }\n\nfunc NewDM() map[string]int { return map[string]int{\"origin\": 1} }\n\ntype DR struct {\n\tV    int\n\tKids []DR\n}\ntype DRO struct {\n\tV    int\n\tKeep int\n\tKids []DRO\n}\n\nfunc NewDRO() *DRO { return &DRO{Keep: 100} }\n\ntype DV struct{ V int }\ntype DVO struct {\n\tV    int\n\tKeep int\n}\n\nfunc NewDVO() *DVO { return &DVO{Keep: 100} }\n")
 	type drvCall struct {
 		Args []any `json:"args"`
 		Dump []int `json:"dump"`
@@ -330,6 +330,15 @@ func cmdStruct(args []string) {
 			// default:update next to a list method that makes goverter generate a helper for DV -> DVO
 			fmt.Fprintf(&src, "\n// goverter:converter\n// goverter:ignoreMissing\n%stype C%d interface {\n\tAll(source []DV) []DVO\n\t// goverter:default NewDVO\n\t// goverter:default:update\n\tConv(source *DV) *DVO\n}\n", head(i), i)
 			drvLines[i]["ins"] = []any{ptrv(stv(lit(5)))}
+		case "update-wrap":
+			var q map[string]any
+			hx.Must(json.Unmarshal(s.Prog, &q))
+			wl := "// goverter:wrapErrors\n"
+			if q["x"] == "using" {
+				wl = "// goverter:wrapErrorsUsing " + b.Mod + "/wx\n"
+			}
+			fmt.Fprintf(&src, "\n// goverter:converter\n// goverter:extend AtoiU\n%s%stype C%d interface {\n\t// goverter:update target\n\tUpdate(source UWS, target *UWT) error\n}\n", wl, head(i), i)
+			drvLines[i]["calls"] = []drvCall{{Args: []any{stv(map[string]any{"k": "b", "tok": "#x"}), ptrv(stv(lit(9)))}, Dump: []int{1}}}
 		case "default-map":
 			fmt.Fprintf(&src, "\n// goverter:converter\n%stype C%d interface {\n\t// goverter:default NewDM\n\tConv(source map[string]int) map[string]int\n}\n", head(i), i)
 			drvLines[i]["ins"] = []any{nilv(), map[string]any{"k": "m", "a": "i", "kv": []any{[]any{map[string]any{"k": "b", "tok": "#k"}, lit(5)}}}}
@@ -415,7 +424,7 @@ func cmdStruct(args []string) {
 			drvLines[i]["calls"] = calls
 		}
 	}
-	hx.WriteTree(*work, map[string]string{"p/in.go": src.String(), "sp/in.go": srcSP.String(),
+	hx.WriteTree(*work, map[string]string{"p/in.go": src.String(), "sp/in.go": srcSP.String(), "wx/wx.go": wxSource,
 		"q/q.go": "package q\n\ntype SQ1 struct {\n\tOpen int\n\tB    int\n}\ntype TQ struct {\n\tOpen   int\n\tsecret int\n}\ntype SQ2 struct {\n\thidden int\n\tB      int\n}\ntype TQ2 struct{ Open int }\n\nfunc (t TQ) Secret() int { return t.secret }\nfunc NewSQ2(h int) SQ2 { return SQ2{hidden: h} }\n"})
 	t0 := time.Now()
 	all, err := hx.GenerateEach(hx.GenConfig(*work, []string{"./p", "./sp"}, nil))
@@ -439,7 +448,7 @@ func cmdStruct(args []string) {
 		if o.Gen == "ok" {
 			b.WriteOutputs(i, o.Files)
 			m := "Conv"
-			if scens[i].Kind == "update" || scens[i].Kind == "update-iface" {
+			if scens[i].Kind == "update" || scens[i].Kind == "update-iface" || scens[i].Kind == "update-wrap" {
 				m = "Update"
 			}
 			b.Reg[i] = fmt.Sprintf("reflect.ValueOf((&gen.C%dImpl{}).%s)", i, m)
@@ -487,7 +496,7 @@ func cmdStruct(args []string) {
 		}
 		base := map[string]any{"id": i, "kind": s.Kind, "gen": o.Gen, "why": why, "compiles": !badc, "diag": firstLine(o.Why)}
 		if s.Kind != "update" && s.Kind != "default" {
-			base["imports"], base["decls"] = hx.DescribeFiles(o.Files, map[string]string{b.Mod + "/p": "user", b.Mod + "/q": "user-q"})
+			base["imports"], base["decls"] = hx.DescribeFiles(o.Files, map[string]string{b.Mod + "/p": "user", b.Mod + "/q": "user-q", b.Mod + "/wx": "wrap-pkg"})
 		}
 		switch s.Kind {
 		case "field":
@@ -542,6 +551,32 @@ func cmdStruct(args []string) {
 					f := out["e"].(map[string]any)["fs"].([]any)
 					base["res"] = map[string]any{"nil": false, "A": litOf(f[0]), "B": litOf(f[1])}
 				}
+			}
+			obs.Write(base)
+		case "update-wrap":
+			base["prog"] = s.Prog
+			base["err"], base["path"] = "", []string{}
+			for _, r := range byID[i] {
+				nExec++
+				e, _ := r["err"].(string)
+				path := []string{}
+				if strings.HasPrefix(e, "path:") {
+					parts := strings.SplitN(strings.TrimPrefix(e, "path:"), "|", 2)
+					if parts[0] != "" {
+						path = strings.Split(parts[0], "/")
+					}
+					e = parts[1]
+				}
+				for strings.HasPrefix(e, "error setting field ") {
+					rest := strings.TrimPrefix(e, "error setting field ")
+					k := strings.Index(rest, ": ")
+					if k < 0 {
+						break
+					}
+					path = append(path, rest[:k])
+					e = rest[k+2:]
+				}
+				base["err"], base["path"] = e, path
 			}
 			obs.Write(base)
 		case "default-map":
@@ -630,7 +665,7 @@ func cmdStruct(args []string) {
 				continue
 			}
 			// one generation record per update program for C18 (imports / declarations of the emitted file)
-			gi, gd := hx.DescribeFiles(o.Files, map[string]string{b.Mod + "/p": "user", b.Mod + "/q": "user-q"})
+			gi, gd := hx.DescribeFiles(o.Files, map[string]string{b.Mod + "/p": "user", b.Mod + "/q": "user-q", b.Mod + "/wx": "wrap-pkg"})
 			obs.Write(map[string]any{"id": i, "kind": "genfile", "gen": "ok", "why": "", "compiles": true, "imports": gi, "decls": gd})
 			for _, r := range byID[i] {
 				nExec++
